@@ -136,7 +136,10 @@ class Run:
                     super().__init__(when)
                     self.eid, self.dur, self.sched = eid, dur, sched
 
-            srcs = [event.FifoQueueEventSource() for _ in range(sc["nsrc"])]
+            # several sources may belong to one producer (the channels of one websocket connection): ordering is
+            # still a per-source matter
+            shared = event.Producer() if sc.get("shared_producer", len(sc["pushes"]) % 3 == 0) else None
+            srcs = [event.FifoQueueEventSource(producer=shared) for _ in range(sc["nsrc"])]
             job_info: Dict[int, Dict[str, Any]] = {}
 
             def mk_job(jid, when, dur, fail=False):
@@ -166,7 +169,7 @@ class Run:
                 jid = len(job_info)
                 when = in_tz(when, jid)
                 job_info[jid] = {"when": vt_of(when), "sched_at": vt(), "dur": dur, "by": by}
-                d.schedule(when, mk_job(jid, when, dur, fail))
+                d.schedule(when, bt.shaped(mk_job(jid, when, dur, fail), jid))
 
             def mk_handler(si, hi):
                 async def handler(e):
@@ -189,7 +192,7 @@ class Run:
 
             for si, s in enumerate(srcs):
                 for hi in range(sc["handlers_per_source"]):
-                    d.subscribe(s, mk_handler(si, hi))
+                    d.subscribe(s, bt.shaped(mk_handler(si, hi), si + 2 * hi))
 
             def mk_idle(k):
                 async def idle():
@@ -199,7 +202,7 @@ class Run:
                 return idle
 
             for k in range(sc["idle"]):
-                d.subscribe_idle(mk_idle(k))
+                d.subscribe_idle(bt.shaped(mk_idle(k), k + 1))
 
             pushed: List[Dict[str, Any]] = []
 
